@@ -407,7 +407,7 @@ func fieldName(t types.Type, i int) string {
 	if s == nil || i >= s.NumFields() {
 		return fmt.Sprintf("f%d", i)
 	}
-	return s.Field(i).Name()
+	return canonFieldName(s, i)
 }
 
 // FieldRef describes a field address or field read: owner named type + field name.
@@ -429,9 +429,9 @@ func AsFieldAddr(v ssa.Value) (FieldRef, bool) {
 	}
 	owner := ""
 	if n != nil {
-		owner = TypeStr(n)
+		owner = namedStr(n)
 	}
-	return FieldRef{Owner: owner, Field: s.Field(fa.Field).Name(), Base: fa.X}, true
+	return FieldRef{Owner: owner, Field: canonFieldName(s, fa.Field), Base: fa.X}, true
 }
 
 // AsFieldLoad decodes v if it is a load of a struct field (through a pointer
@@ -449,9 +449,9 @@ func AsFieldLoad(v ssa.Value) (FieldRef, bool) {
 		}
 		owner := ""
 		if n != nil {
-			owner = TypeStr(n)
+			owner = namedStr(n)
 		}
-		return FieldRef{Owner: owner, Field: s.Field(x.Field).Name(), Base: x.X}, true
+		return FieldRef{Owner: owner, Field: canonFieldName(s, x.Field), Base: x.X}, true
 	}
 	return FieldRef{}, false
 }
@@ -461,9 +461,17 @@ func NamedOf(t types.Type) string {
 	_, n := StructOf(t)
 	if n == nil {
 		if nn, ok := t.(*types.Named); ok {
-			return TypeStr(nn)
+			return namedStr(nn)
 		}
 		return ""
+	}
+	return namedStr(n)
+}
+
+// namedStr renders a named type, using the canonical name of role-bound unexported types.
+func namedStr(n *types.Named) string {
+	if c, ok := canonTypeName(n); ok {
+		return c
 	}
 	return TypeStr(n)
 }
